@@ -27,6 +27,7 @@ mod c06;
 mod c06_view;
 mod c06codec;
 mod c06cmt;
+mod c06names;
 mod c01;
 mod c04;
 
